@@ -90,6 +90,28 @@ func c20CheckType(c c20Type) engine.Result {
 				continue
 			}
 			c20CheckPredicates(&res, "NewPMT", code, ess[pos])
+			if pos6 < 3 {
+				// the same stream carrying a registration descriptor with each of the format identifiers in common use
+				// (and a language descriptor): classification and the lag query follow the stream_type alone
+				for ri, id := range C06WellKnownFormatIDs {
+					sec3 := sec
+					sec3.Streams = append([]ref.Stream{}, sec.Streams...)
+					ds := []ref.Desc{{Tag: 0x05, Body: []byte(id)}}
+					if ri%2 == 1 {
+						ds = append([]ref.Desc{{Tag: 0x0A, Body: []byte("eng\x00")}}, ds...)
+					}
+					sec3.Streams[pos].Descs = ds
+					pmt3, err3 := psi.NewPMT(append(ref.Pointer(0), sec3.Bytes()...))
+					if err3 != nil || len(pmt3.ElementaryStreams()) != 3 {
+						res.Failf("NewPMT|registration-descriptor|error", "type %#x with registration %q: %v", code, id, err3)
+						continue
+					}
+					c20CheckPredicates(&res, "NewPMT-with-registration-descriptor", code, pmt3.ElementaryStreams()[pos])
+					if got := pmt3.IsPidForStreamWherePresentationLagsEbp(pidAt(pos)); got != c20Lags[code] {
+						res.Failf("PMT|IsPidForStreamWherePresentationLagsEbp-with-registration-descriptor", "type %#x with registration %q: got %v want %v", code, id, got, c20Lags[code])
+					}
+				}
+			}
 			for i := 0; i < 3; i++ {
 				want := c20Lags[sec.Streams[i].Type]
 				if got := pmt.IsPidForStreamWherePresentationLagsEbp(pidAt(i)); got != want {
@@ -682,6 +704,50 @@ func c20CheckDescCase(c c20DescCase) engine.Result {
 	return res
 }
 
+// ---- scenario "language-codes": the three language bytes jointly
+
+type c20LangCase struct {
+	First int `json:"first_byte"`
+}
+
+// c20CheckLang: every three-byte code whose first byte is c.First and whose other two bytes run through the lowercase
+// letters, the uppercase letters, digits, space, NUL and 0xFF (thorough: all 65536 pairs): both language decoders
+// return the bytes as carried.
+func c20CheckLang(c c20LangCase) engine.Result {
+	var res engine.Result
+	var alpha []byte
+	for ch := 0; ch < 256; ch++ {
+		if c.First < 0 || (ch >= 'a' && ch <= 'z') || (ch >= 'A' && ch <= 'Z') || (ch >= '0' && ch <= '9') || ch == ' ' || ch == 0 || ch == 0xFF {
+			alpha = append(alpha, byte(ch))
+		}
+	}
+	first := byte(c.First)
+	if c.First < 0 {
+		first = byte(-c.First - 1)
+	}
+	engine.Guard(&res, "language decoders", func() {
+		for _, b1 := range alpha {
+			for _, b2 := range alpha {
+				code := string([]byte{first, b1, b2})
+				res.Evals++
+				d := psi.NewPmtDescriptor(0x7F, []byte{0x20, first, b1, b2, 0x40})
+				if got := d.DecodeTTMLIso639LanguageCode(); got != code {
+					res.Failf("language-codes|DecodeTTMLIso639LanguageCode", "code % x: got %q", code, got)
+					return
+				}
+				e := psi.NewPmtDescriptor(0x0A, []byte{first, b1, b2, 0x01})
+				if got := e.DecodeIso639LanguageCode(); got != code {
+					res.Failf("language-codes|DecodeIso639LanguageCode", "code % x: got %q", code, got)
+					return
+				}
+			}
+		}
+	})
+	res.Nontrivial = res.Evals
+	res.Outcome(len(alpha))
+	return res
+}
+
 // ---- scenario "concurrent-decoders": read-only decoders on separate objects, called at the same time
 
 type c20ConcCase struct {
@@ -753,6 +819,20 @@ func init() {
 					}
 				},
 				Check: witnessEnum(c20CheckDescCase, witnessPSI), Batch: 1,
+			},
+			&engine.Enum[c20LangCase]{
+				Name: "language-codes",
+				Rule: "the three language bytes JOINTLY: first byte all 256 values x the other two over letters of both cases, digits, space, NUL and 0xFF (65 values each; thorough: all 2^24 codes): the TTML and the ISO-639 language decoders return exactly the three bytes carried (no code is special)",
+				Gen: func(r *engine.Run, emit func(c20LangCase)) {
+					for f := 0; f < 256; f++ {
+						if r.Thorough() {
+							emit(c20LangCase{-f - 1})
+						} else {
+							emit(c20LangCase{f})
+						}
+					}
+				},
+				Check: c20CheckLang, Batch: 4,
 			},
 			&engine.Enum[c20ConcCase]{
 				Name: "concurrent-decoders",
